@@ -48,7 +48,7 @@ COMPONENTS = {"real": ["EoN.estimate_SIR_prob_size", "EoN.estimate_SIR_prob_size
 def plan(tier):
     if tier == "quick":
         return [("from_dir_perc", 20000), ("bond", 160), ("rules", 15000), ("directed", 8000)]
-    return [("from_dir_perc", 200000), ("bond", 12000), ("rules", 150000), ("directed", 80000)]
+    return [("from_dir_perc", 200000), ("bond", 1600), ("rules", 150000), ("directed", 80000)]
 
 
 # ---------------------------------------------------------------- own graph algorithms
